@@ -21,6 +21,7 @@
 #include "debug.h"
 #include "parse_statement.h"
 #include "parse_expression.h"
+#include "functor_manager.h"
 #include "plugin_manager.h"
 #include "expression_builtin.h"
 
@@ -167,11 +168,14 @@ Statement * Parser::parseStatement()
       _ctx.parsingBegin();
       Statement * s = ParseStatement::statement(*this, _ctx);
       _ctx.parsingEnd();
+      _ctx.functorManager().commit();
       state(End);
       return s;
     }
     catch (...)
     {
+      /* the declarations made by the rejected statement are reverted */
+      _ctx.functorManager().rollback();
       _ctx.parsingEnd();
       state(End);
       throw;
@@ -227,12 +231,15 @@ Executable * Parser::parse(Context& ctx, StreamReader& reader, bool trace /*= fa
         statements.push_back(s);
     }
     ctx.parsingEnd();
+    ctx.functorManager().commit();
     if (trace && ctx.ctxerr())
       fflush(ctx.ctxerr());
     return new Executable(ctx, statements);
   }
   catch (ParseError& pe)
   {
+    /* the declarations made by the rejected text are reverted */
+    ctx.functorManager().rollback();
     ctx.parsingEnd();
     for (auto s : statements)
       delete s;
